@@ -398,6 +398,46 @@ func c17Run(f failer, cfg world.Cfg, c c17Case) {
 		for _, m := range c.Modify {
 			e := c.Tree[m.Idx%len(c.Tree)]
 			wasAlive := alive[e.Path]
+			if m.Kind == "selfmove" {
+				// a directory cannot be moved beneath itself: the call is refused and leaves everything,
+				// also an existing empty directory at the destination, where it was
+				if !e.Dir || !wasAlive {
+					continue
+				}
+				dst := e.Path + "/zz-fresh"
+				for _, sub := range c.Tree {
+					if sub.Dir && alive[sub.Path] && path.Dir(sub.Path) == e.Path {
+						empty := true
+						for _, g := range c.Tree {
+							if alive[g.Path] && strings.HasPrefix(g.Path, sub.Path+"/") {
+								empty = false
+							}
+						}
+						if empty {
+							dst = sub.Path
+							break
+						}
+					}
+				}
+				var merr error
+				checkObs(f, hist.Call("selfmove "+e.Path, func() { merr = fsys.Rename(e.Path, dst) }), "selfmove")
+				if merr == nil {
+					failf(f, "Rename(%q, %q) moved a directory of the archive beneath itself", e.Path, dst)
+				}
+				for _, g := range c.Tree {
+					if !alive[g.Path] {
+						continue
+					}
+					var serr error
+					checkObs(f, hist.Call("stat "+g.Path, func() { _, serr = fsys.Stat(g.Path) }), "stat")
+					if serr != nil {
+						failf(f, "after the refused Rename(%q, %q) the member %s is gone: %v", e.Path, dst, g.Path, serr)
+					}
+				}
+				callErrs = append(callErrs, fmt.Sprintf("selfmove %s -> %s: refused", e.Path, dst))
+				live.S.Class("member-call:selfmove-refused")
+				continue
+			}
 			var err error
 			checkObs(f, hist.Call(m.Kind+" "+e.Path, func() {
 				switch m.Kind {
@@ -574,7 +614,7 @@ func TestC17(t *testing.T) {
 		}
 		if rapid.IntRange(0, 2).Draw(t, "modify") == 0 {
 			for i := 0; i < rapid.IntRange(1, 3).Draw(t, "nmod"); i++ {
-				c.Modify = append(c.Modify, c17Mod{Kind: rapid.SampledFrom([]string{"chmod", "chtimes", "rename", "remove", "chmod", "recreate"}).Draw(t, "modkind"), Idx: rapid.IntRange(0, 20).Draw(t, "modidx"), Perm: uint32(rapid.SampledFrom([]int{0600, 0755, 0444}).Draw(t, "modperm"))})
+				c.Modify = append(c.Modify, c17Mod{Kind: rapid.SampledFrom([]string{"chmod", "chtimes", "rename", "remove", "chmod", "recreate", "selfmove"}).Draw(t, "modkind"), Idx: rapid.IntRange(0, 20).Draw(t, "modidx"), Perm: uint32(rapid.SampledFrom([]int{0600, 0755, 0444}).Draw(t, "modperm"))})
 			}
 		}
 		c17Run(t, cfg, c)
